@@ -333,6 +333,34 @@ fn fault_case_how(ctx: &mut Ctx, execdir: bool, ninv: usize, failing: u32, missi
     None
 }
 
+fn nonutf8_case(ctx: &mut Ctx, execdir: bool) -> Option<(String, String)> {
+    use std::os::unix::ffi::OsStrExt;
+    let w = ctx.sbx.join("w");
+    let _ = crate::sandbox::force_remove(&w);
+    std::fs::create_dir_all(w.join("r")).ok()?;
+    let names: [&[u8]; 4] = [b"caf\xe9.txt", b"x\xffy", b"\xc3", b"ok"];
+    for n in names {
+        std::fs::write(w.join("r").join(OsStr::from_bytes(n)), b"").ok()?;
+    }
+    let log = ctx.sbx.join(".mc-vrec.log");
+    let _ = std::fs::remove_file(&log);
+    let prim = if execdir { "-execdir" } else { "-exec" };
+    let argv: Vec<String> = vec!["r".into(), "-sorted".into(), "-type".into(), "f".into(), prim.into(), vrec(), log.to_string_lossy().to_string(), "{}".into(), "+".into()];
+    let got = run_bin(ctx, &argv, &w, None, vec![]);
+    let recs = vreclog::read(&log).unwrap_or_default();
+    ctx.rep.evaluations += 1;
+    ctx.rep.nontrivial += 1;
+    ctx.rep.count("nonutf8_name_cases", 1);
+    let mut sorted: Vec<&[u8]> = names.to_vec();
+    sorted.sort();
+    let want: Vec<Vec<u8>> = sorted.iter().map(|n| [if execdir { &b"./"[..] } else { &b"r/"[..] }, n].concat()).collect();
+    let delivered: Vec<Vec<u8>> = recs.iter().flat_map(|r| r.args.clone()).collect();
+    if got.panicked() || got.code != Ok(0) || delivered != want {
+        return Some((format!("C08 names that are not valid UTF-8 do not reach the command byte for byte [{prim}]"), format!("find {:?}: status {:?}; delivered {:?}, expected {:?}", argv, got.code, delivered.iter().map(|a| lossy(a)).collect::<Vec<_>>(), want.iter().map(|a| lossy(a)).collect::<Vec<_>>())));
+    }
+    None
+}
+
 fn exhausted_budget_case(ctx: &mut Ctx, execdir: bool, fixed: bool) -> Option<(String, String)> {
     let w = ctx.sbx.join("w");
     let _ = crate::sandbox::force_remove(&w);
@@ -677,6 +705,16 @@ fn run(ctx: &mut Ctx) {
             }
         }
     }
+    // (v) names that are not valid UTF-8 reach the command byte for byte (as ./NAME under -execdir)
+    for execdir in [false, true] {
+        job += 1;
+        if !ctx.mine(job) {
+            continue;
+        }
+        if let Some((sig, detail)) = nonutf8_case(ctx, execdir) {
+            ctx.rep.violation(&sig, detail, json!({"prop":"C08","part":"nonutf8","execdir":execdir}));
+        }
+    }
     // (ii) forced batching
     let kib = 1024u64;
     let mut cases: Vec<(bool, usize, usize, usize, Option<u64>, u32)> = vec![];
@@ -719,6 +757,15 @@ fn run(ctx: &mut Ctx) {
 }
 
 fn replay(case: &Value, ctx: &mut Ctx) -> Option<String> {
+    if case["part"] == "nonutf8" {
+        return match nonutf8_case(ctx, case["execdir"].as_bool()?) {
+            Some((sig, detail)) => {
+                ctx.rep.violation(&sig, detail, case.clone());
+                Some(sig)
+            }
+            None => None,
+        };
+    }
     if case["part"] == "exhausted" {
         return match exhausted_budget_case(ctx, case["execdir"].as_bool()?, case["fixed"].as_bool()?) {
             Some((sig, detail)) => {
